@@ -11,7 +11,9 @@ pub use stop_by::StopBy;
 
 #[cfg(feature = "verif-hooks")]
 #[doc(hidden)]
-pub use nth_child::{verif_hooks as nth_child_hooks, NthChildSimple, SerializableNthChild as HookNthChild};
+pub use nth_child::{
+  verif_hooks as nth_child_hooks, NthChildSimple, SerializableNthChild as HookNthChild,
+};
 #[cfg(feature = "verif-hooks")]
 #[doc(hidden)]
 pub use range::SerializableRange as HookRange;
@@ -35,11 +37,12 @@ use bit_set::BitSet;
 use schemars::JsonSchema;
 use serde::{Deserialize, Serialize};
 use std::borrow::Cow;
-#[cfg(feature = "verif-hooks")]
-use crate::verif_hooks::VecSet as HashSet;
 #[cfg(not(feature = "verif-hooks"))]
 use std::collections::HashSet;
 use thiserror::Error;
+
+#[cfg(feature = "verif-hooks")]
+use crate::verif_hooks::VecSet as HashSet;
 
 /// A rule object to find matching AST nodes. We have three categories of rules in ast-grep.
 ///
